@@ -15,7 +15,8 @@ META = {
         "enqueues the same callee with the same arguments as the synchronous branch calls; C04.5 the client "
         "notification call returns nothing and Payload.notify drops the id for 2.0 and nulls it for 1.0; C04.6 in the batch and the "
         "single path of _unmarshaled_dispatch every entry accepted by validate_request reaches _marshaled_single_dispatch on all "
-        "normal paths (no further rejection)."),
+        "normal paths (no further rejection); C04.7 (imported from C02.1) no exception can leave the dispatcher: an escaping exception "
+        "on a notification path is turned into an HTTP 500 error object by the request handler, i.e. the notification is answered."),
     "does_not_decide": "that an enqueued notification is eventually executed exactly once by the pool under "
                        "every interleaving (schedule-quantified; C09 covers the pool's structural discipline).",
     "rules": {
@@ -25,6 +26,7 @@ META = {
         "C04.4": "argument-list comparison of sibling call sites (enqueue(f, *a) vs f(*a))",
         "C04.5": "return statements of _request_notify; abstract evaluation of Payload.notify per version region",
         "C04.6": "reachability avoiding the dispatch call from the accepting edge of the validation test",
+        "C04.7": "imported C02.1 (E4 may-raise analysis)",
     },
     "assumptions": ["a custom dispatch function and the registered callables are opaque; only that they are "
                     "invoked once is decided"],
@@ -253,3 +255,8 @@ def check(ck):
                 ck.require(good, "C04.5", "jsonrpc.Payload.notify[%s,%s]" % (region, ptag),
                            "keys %s" % sorted(d), "%s (keys %s, id=%r)" % (what, sorted(d), d.get("id")),
                            q.loc(pn, pn.node))
+
+    # ---- C04.7 no exception escapes the dispatcher for a notification (shared with C02.1) ---------------------------------
+    from rules import c02, common as _common
+    _common.import_rules(ck, c02, {"C02.1": "C04.7"})
+    ck.floor("C04.7", 1)
